@@ -404,7 +404,7 @@ def _make_adaptive_stepper_euler(
             if error_rel <= 1:  # error is sufficiently small
                 try:
                     # calculating the rate at putative new step
-                    rate = rhs_pde(step_small, t)
+                    rate = rhs_pde(step_small, t + dt_step)
                 except Exception:
                     # calculating the rate failed => retry with smaller dt
                     error_rel = np.nan
